@@ -41,6 +41,7 @@ pub fn run_op(lhs: &str) -> String {
             "valid" => ops2::op_valid(args),
             "flip" => ops2::op_flip(args),
             "flipx" => ops2::op_flipx(args),
+            "glue" => ops2::op_glue(args),
             "hist" => ops3::op_hist(args),
             "serde" => ops3::op_serde(args),
             "fragdec" => ops4::op_fragdec(args),
